@@ -839,6 +839,22 @@ func (r *refEval) evalForm(f []sx, e *env) (sx, *exit) {
 			return r.unsup("funcall of %v", av[0])
 		}
 		return r.call(c, av[1:])
+	case "mapc":
+		av, ex := r.args(rest, e)
+		if ex != nil {
+			return nil, ex
+		}
+		c, ok := av[0].(*closure)
+		items, isList := av[1].([]sx)
+		if !ok || !isList {
+			return r.unsup("mapc")
+		}
+		for _, it := range items {
+			if _, ex := r.call(c, []sx{it}); ex != nil {
+				return nil, ex
+			}
+		}
+		return av[1], nil
 	case "send":
 		// (send c07-caller :call f): the method funcalls f with 1
 		av, ex := r.args(rest[2:], e)
